@@ -253,7 +253,7 @@ def run(ctx):
         c01b(ctx, tu)
         c01c(ctx, tu)
         n += c01d(ctx, tu)
-        protocol.report(ctx, tu, lambda r: r in ("C01.b", "C03.d"))
+        protocol.report(ctx, tu, lambda r: True)   # the whole step protocol is a premise of this property
         from rules import C05
         if tu.find(A["seq_cost"]):
             C05.c05a(ctx, tu)    # "permitted by their sequence constraints": cost / order / can_be_called tables
